@@ -15,3 +15,49 @@ let handle ws =
       Printf.sprintf "%s %d" (match e with None -> "-1" | Some e -> ZZ.to_string (tz e)) (if fires then 1 else 0)
   | _ -> "BAD"
 let run () = iter_lines (fun l -> print_endline (handle (words l)))
+
+(* histories of several timers over the model's wheel (Loop.timer_register / timer_unregister / timer_reregister), then the
+   wait of one idle dispatch(timeout) starting at time 0: prints the effective wait in ms and the timers due at its end *)
+let handle2 line =
+  match String.split_on_char '|' line with
+  | [t; ops] ->
+      let timeout = int_of_string (String.trim t) in
+      let e = ref init.en in
+      let timers : (int, timer) Hashtbl.t = Hashtbl.create 8 in
+      let fac k = factory_new { t_id = n_of_int k; t_ver = N0; t_sub = N0 } in
+      List.iter (fun op ->
+          let kind = op.[0] in
+          let rest = String.sub op 1 (String.length op - 1) in
+          let k, ms = (match String.split_on_char ':' rest with [a; b] -> int_of_string a, int_of_string b | [a] -> int_of_string a, 0 | _ -> 0, 0) in
+          match kind with
+          | 'i' ->
+              let tm = { tm_reg = None; tm_dl = Some (zt (ZZ.of_int ms)); tm_en = false } in
+              let ((_, tm'), e') = timer_register !e tm (fac k) in
+              Hashtbl.replace timers k tm'; e := e'
+          | 's' -> (match Hashtbl.find_opt timers k with
+              | Some tm ->
+                  let tm1 = { tm with tm_dl = Some (zt (ZZ.of_int ms)) } in
+                  let ((_, tm'), e') = timer_reregister !e tm1 (fac k) in
+                  Hashtbl.replace timers k tm'; e := e'
+              | None -> ())
+          | 'x' -> (match Hashtbl.find_opt timers k with
+              | Some tm -> let (tm', e') = timer_unregister !e tm in Hashtbl.replace timers k tm'; e := e'
+              | None -> ())
+          | 'n' -> (match Hashtbl.find_opt timers k with
+              | Some tm -> let ((_, tm'), e') = timer_register !e tm (fac k) in Hashtbl.replace timers k tm'; e := e'
+              | None -> ())
+          | 'r' -> (match Hashtbl.find_opt timers k with
+              | Some tm -> let (_, e') = timer_unregister !e tm in Hashtbl.remove timers k; e := e'
+              | None -> ())
+          | _ -> ()) (words ops);
+      let next = wh_next_deadline !e.whl in
+      let eff = eff_timeout (Some (zt (ZZ.of_int timeout))) false next Z0 in
+      let effi = (match eff with Some x -> ZZ.to_int (tz x) | None -> -1) in
+      (* the timers whose arming is due when the wait ends *)
+      let due = Hashtbl.fold (fun k tm acc ->
+          match tm.tm_reg, tm.tm_dl with
+          | Some _, Some d when ZZ.to_int (tz d) <= effi -> k :: acc
+          | _ -> acc) timers [] in
+      Printf.sprintf "%d %s" effi (if due = [] then "-" else String.concat "," (List.map string_of_int (List.sort compare due)))
+  | _ -> "BAD"
+let run2 () = iter_lines (fun l -> print_endline (handle2 l))
